@@ -276,8 +276,12 @@ def ob_ts(ctx):
     exact_keys = [k for k, _, _ in slabs] if ctx.params.get('exact') == 'all' else \
         need + [k for k in ctx.params.get('crosscheck', []) if k not in need]
     jobs = []
-    # small binades first: their queries are cheap, and a violation - if there is one - is found there within seconds
-    for key, lo, hi in [s for s in slabs if s[0] in exact_keys]:
+    # undecided slabs first, small binades first (cheap queries; a violation - if there is one - shows up there within seconds);
+    # among pure cross-check slabs the binade of present-day epoch timestamps goes first
+    today = '2^40' if direction == 'x2p2x' else '2^30'
+    order = [s for s in slabs if s[0] in need] + [s for s in slabs if s[0] == today and s[0] not in need] + \
+            [s for s in slabs if s[0] not in need and s[0] != today]
+    for key, lo, hi in [s for s in order if s[0] in exact_keys]:
         sc, nv = ex.script(lo, hi, label)
         jobs.append((key, sc, nv))
     res = pysym.cvc5_parallel(jobs, nproc, deadline, stop_on_sat=True) if jobs else {}
@@ -391,8 +395,6 @@ def _dec_encode(be, c, neg, nd, e):
                             'DecimalConverter._float_to_xml': DecimalConverter._float_to_xml,
                             'DecimalConverter._decimal_to_xml': DecimalConverter._decimal_to_xml})
     sym.be_domain = d.domain(be) + ([be.cmp('gt', c, 0)] if (neg or e > 0) else [])
-    for st_conds in [sym.be_domain]:
-        pass
     paths = _dec_run(sym, d)
     return d, sym, paths
 
@@ -844,7 +846,7 @@ def obligations(tier):
     tc = 60 if quick else 300
     maxn = 3 if quick else 4
     obs += [
-        Ob('C18.lex.integer', 'harness.C18', 'integer_lex', bind={'maxn': maxn}, timeout=90 if quick else 1200, functions=F_LEX[:2],
+        Ob('C18.lex.integer', 'harness.C18', 'integer_lex', bind={'maxn': maxn}, timeout=150 if quick else 1200, functions=F_LEX[:2],
            stubs=CH_STUB[:1],
            bounds=f'every text of <= {maxn} characters from the pool 0 1 9 + - _ space tab . e a U+0663 U+00A0 '
                   f'({sum(13 ** k for k in range(maxn + 1))} texts, chosen by selectors; int() on a symbolic str is concretised by CrossHair)',
@@ -859,7 +861,7 @@ def obligations(tier):
                   'SafetyClassification, AlertSignalPresence)',
            claim='EnumConverter.to_py(s) returns => s is exactly a literal of the enumeration; to_xml gives s back; literals are accepted'),
     ]
-    obs.append(Ob('C18.lex.decimal', 'harness.C18', 'decimal_lex', bind={'maxn': maxn}, timeout=tc if quick else 900,
+    obs.append(Ob('C18.lex.decimal', 'harness.C18', 'decimal_lex', bind={'maxn': maxn}, timeout=150 if quick else 1200,
                   functions=F_LEX[6:], stubs=CH_STUB,
                   bounds=f'every text of <= {maxn} characters from the pool "01.-+eE_ NaInf" ({sum(14 ** k for k in range(maxn + 1))} texts, '
                          'chosen by selectors; decimal.Decimal is C code and runs concretely)',
@@ -867,7 +869,7 @@ def obligations(tier):
     for neg in (False, True):
         bind = {'neg': neg, 'dg': 1} if quick else {'neg': neg}
         obs.append(Ob(f'C18.dec.runs.{"neg" if neg else "pos"}', 'harness.C18', 'decimal_to_xml_runs',
-                      bind=bind, timeout=90 if quick else 900, functions=F_DEC + [DC + '.DecimalConverter.to_py'],
+                      bind=bind, timeout=150 if quick else 900, functions=F_DEC + [DC + '.DecimalConverter.to_py'],
                       stubs=['digit-run family: [-] D^a (or 0) . 0^b D^c 0^d with a+b+c+d <= 18, d <= 2; run lengths chosen by selectors, '
                              'the real to_xml (real Decimal.__str__, real float path) runs concretely'],
                       bounds=f'all run lengths a, b, c <= 18, d <= 2 with a+b+c+d <= 18 (3439 texts per digit), digit D '
